@@ -15,7 +15,8 @@ RULE = ("case = generic SDE (Stratonovich, 4 noise types, drawn batch/state/nois
         "solve (retain_graph; both passes compared) x entropy. "
         "Gradients of the loss w.r.t. y0 and every parameter from sdeint_adjoint(method='reversible_heun', "
         "adjoint_method='adjoint_reversible_heun') are compared with backprop through sdeint(method='reversible_heun'): "
-        "global relative difference <= 1e-9 (per tensor, with an absolute floor of 1e-9 * largest gradient norm). "
+        "global relative difference <= 1e-9 + 1e3 * (how far the backprop gradient itself moves when y0 is perturbed by 1e-15: the "
+        "rounding-error amplification of that trajectory) (per tensor, with an absolute floor of 1e-9 * largest gradient norm). "
         "Non-trivial = >= 4 steps and >= 2 output times after ts[0]; distinct = distinct canonical case JSON.")
 ASSUMPTIONS = ["grids are dyadic: for non-dyadic dt, ts[0]+k*dt is not the solver's accumulated grid and the premise "
                "'whole multiples of dt' fails in floating point",
@@ -73,9 +74,12 @@ def run_case(case):
     if case.get("gswitch") is not None:
         n_steps = case["cuts"][-1]
         spec = dict(spec, gswitch=t0 + max(1, round(case["gswitch"] * n_steps)) * dt)
-    for adjoint in (False, True):
+    # third pass: backprop once more from an initial state moved by 1e-15 (relative) - how much the gradient itself moves
+    # under a perturbation of the size of a few rounding errors is the yardstick for "up to floating-point rounding" on this
+    # trajectory (hundreds of steps of an expanding flow amplify rounding errors far beyond 1e-16)
+    for adjoint, jitter in ((False, 0.0), (True, 0.0), (False, 1e-15)):
         sde = sdes.build_generic(spec)
-        y0 = sdes.y0_for(spec).requires_grad_(case["y0_grad"])
+        y0 = (sdes.y0_for(spec) * (1.0 + jitter)).requires_grad_(case["y0_grad"])
         bm = sdes.make_bm(torchsde, spec, ts[0], ts[-1], case["entropy"], levy=case["levy"])
         selected = None
         if case.get("adjoint_params") is not None:
@@ -144,7 +148,7 @@ def run_case(case):
             # only the tensors asked for are compared (what the others receive is C09's bookkeeping clause)
             named = [("y0", y0.grad)] + sorted(((n_, p_.grad) for n_, p_ in selected), key=lambda kv: kv[0])
         grads.append((ys.detach(), named + first_pass))
-    (ys_a, ga), (ys_b, gb) = grads
+    (ys_a, ga), (ys_b, gb), (_, gc) = grads
     sig = {"noise_type": spec["noise_type"]}
     checks = 1
     if not torch.equal(ys_a, ys_b):
@@ -152,7 +156,8 @@ def run_case(case):
             "forward_values_differ", "sdeint_adjoint forward values differ from sdeint (reversible_heun)", sig))
     biggest = max([float(x.abs().max()) for _, x in ga if x is not None] + [1e-300])
     worst = 0.0
-    for (name, x), (_, y) in zip(ga, gb):
+    worst_amp = 0.0
+    for k_, ((name, x), (_, y)) in enumerate(zip(ga, gb)):
         checks += 1
         if (x is None) != (y is None):
             # a parameter the SDE does not use: backprop leaves None, the adjoint returns zeros
@@ -165,8 +170,11 @@ def run_case(case):
             continue
         denom = max(float(x.abs().max()), 1e-9 * biggest, 1e-300)
         e = float((x - y).abs().max()) / denom
+        z_ = gc[k_][1] if k_ < len(gc) else None
+        amp = float((x - z_).abs().max()) / denom if z_ is not None and z_.shape == x.shape else 0.0
         worst = max(worst, e)
-        if not e <= 1e-9:
+        worst_amp = max(worst_amp, e / (1e-9 + 1e3 * amp))
+        if not e <= 1e-9 + 1e3 * amp:
             return Result(nontrivial=True, checks=checks, metrics={"grad_relerr": worst}, fail=Fail(
                 "gradient_mismatch", f"adjoint_reversible_heun gradient of {name} differs from backprop: rel {e:.3e} "
                                      f"({spec['noise_type']} noise, {case['cuts'][-1]} steps of {dt}, "
@@ -194,4 +202,4 @@ def run_case(case):
     if case.get("extras_only"):
         labels.append("loss_on_returned_extra_state_only")
     return Result(nontrivial=n >= 4 and len(case["cuts"]) >= 2, labels=labels, checks=checks,
-                  metrics={"grad_relerr": worst, "steps": n})
+                  metrics={"grad_relerr": worst, "grad_relerr_over_tolerance": worst_amp, "steps": n})
